@@ -174,7 +174,7 @@ package gorm
 
 //@ func joins
 //@   tags C06
-//@   requires db.clone > 0
+//@   when db.clone > 0
 //@   modifies nothing
 //@   ensures fresh-result: fresh(result)
 //@   ensures parent-handle-untouched: objUnchanged(db) [C06,C13,C18,C05]
@@ -499,10 +499,10 @@ package gorm
 //@   pure
 
 //@ # ---------- chain methods on a chain in progress (clone == 0): they continue on the same handle ----------
-//@ funcalt chained (*DB).Model (*DB).Table (*DB).Omit (*DB).MapColumns (*DB).Where (*DB).Not (*DB).Or (*DB).Group (*DB).Having (*DB).Order (*DB).Limit (*DB).Offset (*DB).Preload (*DB).Attrs (*DB).Assign (*DB).Unscoped
+//@ funcalt chained (*DB).Model (*DB).Table (*DB).Omit (*DB).MapColumns (*DB).Where (*DB).Not (*DB).Or (*DB).Joins (*DB).InnerJoins (*DB).Group (*DB).Having (*DB).Order (*DB).Limit (*DB).Offset (*DB).Scopes (*DB).Preload (*DB).Attrs (*DB).Assign (*DB).Unscoped joins
 //@   tags C06
 //@   when db.clone <= 0 && db.Statement.DB == db
-//@   modifies db.Statement.Model, db.Statement.Table, db.Statement.TableExpr, db.Statement.Omits, db.Statement.ColumnMapping, db.Statement.Preloads, db.Statement.attrs, db.Statement.assigns, db.Statement.Unscoped, db.Statement.SQL, db.Statement.Vars, db.Statement.Dest, db.Statement.Clauses[*], db.Statement.Preloads[*], db.Error
+//@   modifies db.Statement.Model, db.Statement.Table, db.Statement.TableExpr, db.Statement.Omits, db.Statement.ColumnMapping, db.Statement.Preloads, db.Statement.attrs, db.Statement.assigns, db.Statement.Unscoped, db.Statement.SQL, db.Statement.Vars, db.Statement.Dest, db.Statement.Joins, db.Statement.scopes, db.Statement.Joins[*], db.Statement.scopes[*], db.Statement.Clauses[*], db.Statement.Preloads[*], db.Error
 //@   ensures same-handle: result == db
 //@   ensures keeps-skiphooks: result.Statement.SkipHooks == old(db.Statement.SkipHooks) [C13]
 //@   ensures keeps-context: result.Statement.Context == old(db.Statement.Context) [C18]
